@@ -9,6 +9,7 @@ package vsched
 
 import (
 	"fmt"
+	"os"
 	"runtime"
 	"strings"
 	"sync"
@@ -25,6 +26,7 @@ type Thread struct {
 	desc string      // description of the pending operation
 	done bool
 	yld  bool // pending op is a voluntary yield (spin loop): deprioritised
+	held int  // shim locks this thread holds (dense mode: no statement points inside a critical section)
 }
 
 // PointRec records one scheduling decision at which more than one thread was enabled.
@@ -254,6 +256,43 @@ func Block(desc string, pred func() bool) {
 		panic("vsched.Block outside a controlled execution: " + desc)
 	}
 	s.point(pred, desc, false)
+}
+
+// Dense switches the statement-level scheduling points on (harness parts built with the rewriter's -dense
+// option; set from the environment variable VERIF_DENSE). See Stmt.
+var Dense = os.Getenv("VERIF_DENSE") != ""
+
+// Stmt is the statement-level scheduling point the rewriter's -dense option puts in front of every statement
+// of the chosen files. It is a point only while the running thread holds no shim lock: code inside a critical
+// section is already ordered against everybody who takes the lock, and code outside one - a check-then-act
+// window, a section whose lock was dropped or narrowed, a read of state another thread publishes without a
+// lock - becomes interleavable statement by statement instead of running atomically up to the next
+// lock/atomic operation.
+func Stmt(site string) {
+	if !Dense || !s.active || s.quiet {
+		return
+	}
+	c := s.cur
+	if c == nil || c.held > 0 {
+		return
+	}
+	if Strict && c.goid != goid() {
+		return
+	}
+	s.point(nil, site, false)
+}
+
+// Acquire / Release are called by the lock shims (after a successful acquire / before a release).
+func Acquire() {
+	if s.active && s.cur != nil {
+		s.cur.held++
+	}
+}
+
+func Release() {
+	if s.active && s.cur != nil && s.cur.held > 0 {
+		s.cur.held--
+	}
 }
 
 // Yield is a scheduling point inside a spin / retry loop: the thread is only chosen when no other
